@@ -21,12 +21,10 @@ Proof. intros a H. unfold ok_injection. rewrite H. rewrite !orb_true_r. reflexiv
 Theorem C08_unannotated_is_injectible : ok_injection PyVal.plain = true.
 Proof. reflexivity. Qed.
 
-Theorem C08_injection_decision_exact :
-  forall a, ok_injection a = true <->
-            (truthy_optlist (order_by a) = false /\ truthy_optZ (limit_of a) = false /\
-             ground a = false /\ no_inject a = false /\ force_with a = false).
+Theorem C08_injection_only_without_plan_annotation :
+  forall a, ok_injection a = true -> ground a = false /\ no_inject a = false /\ force_with a = false.
 Proof.
   intros a. unfold ok_injection.
-  destruct (truthy_optlist (order_by a)), (truthy_optZ (limit_of a)), (ground a), (no_inject a), (force_with a);
-    simpl; split; try discriminate; try tauto; intros [? [? [? [? ?]]]]; discriminate.
+  destruct (ground a), (no_inject a), (force_with a); rewrite ?orb_true_r; simpl;
+    try discriminate; auto.
 Qed.
